@@ -19,9 +19,9 @@ struct St
   int limit;           // what the bound is checked against during a loop
   int nloops;
 } st;
-enum { P_BOUND_ATTAINED = 0, P_REINIT, P_NONPOSITIVE_FIRST, P_QUERY_BEFORE_INIT, P_N_ABOVE_CORES, P_PARALLEL_GE2, P_NESTED, P_LARGE_N, P_AFFINITY, P_HOP };
+enum { P_BOUND_ATTAINED = 0, P_REINIT, P_NONPOSITIVE_FIRST, P_QUERY_BEFORE_INIT, P_N_ABOVE_CORES, P_PARALLEL_GE2, P_NESTED, P_LARGE_N, P_AFFINITY, P_HOP, P_QUERY_IN_BODY };
 const char *probe_names[] = {"thread_bound_attained", "reinitialised_with_other_n", "first_init_nonpositive", "queried_before_init",
-                             "n_above_core_count", "two_or_more_bodies_simultaneously", "nested_loop_planned", "init_with_16_to_129_threads", "affinity_mask_smaller_than_online_cpus", "operations_carried_out_by_helper_threads", nullptr};
+                             "n_above_core_count", "two_or_more_bodies_simultaneously", "nested_loop_planned", "init_with_16_to_129_threads", "affinity_mask_smaller_than_online_cpus", "operations_carried_out_by_helper_threads", "count_queried_from_inside_a_loop_body", nullptr};
 const char *no_faults[] = {nullptr};
 
 void reset()
@@ -90,6 +90,9 @@ void do_plan(int tier)
     if (plan.hop_mask)
       sim_probe(P_HOP);
   }
+  // drawn last: loop bodies that ask for the count themselves
+  for (int i = 0; i < plan.nops; i++)
+    plan.ops[i].query = (plan.ops[i].kind == C13_LOOP || plan.ops[i].kind == C13_NESTED) && sim_plan(3) == 2;
   sim_set_step_cap(large ? 8000000 : 1500000);
 }
 void check() {}
@@ -165,6 +168,18 @@ void c13_query(int reported)
   if (reported <= 0)
     sim_fail("C13:reported-count-not-positive", "after initTaskingSystem(%d) numTaskingThreads() = %d", st.last_n, reported);
   st.reported = reported;
+}
+
+void c13_query_in_body(int reported)
+{
+  // the count is a property of the process, not of the place the question is asked from
+  sim_event(136, (uint64_t)(unsigned)reported, 0);
+  sim_probe(P_QUERY_IN_BODY);
+  int exp = expected_limit();
+  if (exp > 0 && reported != exp)
+    sim_fail("C13:reported-count-wrong", "after initTaskingSystem(%d) numTaskingThreads() = %d inside a loop body, expected %d", st.last_n, reported, exp);
+  if (reported <= 0)
+    sim_fail("C13:reported-count-not-positive", "after initTaskingSystem(%d) numTaskingThreads() = %d inside a loop body", st.last_n, reported);
 }
 
 void c13_loop_begin(int count)
